@@ -144,6 +144,17 @@ func genC03(r *rng, tier string, emit func(string)) {
 	for i := 0; i < 10*n; i++ {
 		emit(fmt.Sprintf("mecon %s %s", bhex(limbPattern(r)), bhex(limbPattern(r))))
 	}
+	// membership is about pairs of field elements: a point of the curve with p (or 2p) added to a coordinate is refused
+	for i := 0; i < n/4+8; i++ {
+		p := P()
+		if p[0].Sign() == 0 && p[1].Sign() == 0 {
+			continue
+		}
+		emit(fmt.Sprintf("econ %s %s", bhex(p[0]), bhex(p[1])))
+		emit(fmt.Sprintf("econ %s %s", bhex(new(big.Int).Add(p[0], sm2P)), bhex(p[1])))
+		emit(fmt.Sprintf("econ %s %s", bhex(p[0]), bhex(new(big.Int).Add(p[1], sm2P))))
+		emit(fmt.Sprintf("mecon %s %s", bhex(new(big.Int).Add(p[0], sm2P)), bhex(new(big.Int).Add(p[1], new(big.Int).Lsh(sm2P, 1)))))
+	}
 	for i := 0; i < n/2; i++ {
 		p := P()
 		var q [2]*big.Int
